@@ -21,7 +21,7 @@ CONFIGS = {
     # NMR-like: the second model's atom sits 0.1 A from the first model's
     "two-models-near": {"layout": ["M0", 0, "E", "M1", 1, "E"],
                         "atoms": [("P", "G", (1.0, 2.0, 3.0), 1.0), ("P", "G", (1.1, 2.0, 3.0), 1.0)]},
-    "two-models-two-atoms": {"layout": ["M0", 0, 1, "E", "M1", 2, 3, "E"],
+    "two-models-two-atoms": {"same_as": {1: 0, 3: 2}, "layout": ["M0", 0, 1, "E", "M1", 2, 3, "E"],
                              "atoms": [("P", "G", (1.0, 2.0, 3.0), 1.0), ("C1'", "G", (4.0, 2.0, 3.0), 1.0),
                                        ("P", "G", (1.0, 9.0, 3.0), 1.0), ("C1'", "G", (4.0, 9.0, 3.0), 1.0)], "tie": [(0, 1), (2, 3)]},
     # one model: repeated atom name (alternate locations) with different occupancies, plus a third atom
